@@ -13,22 +13,30 @@ import itertools
 from lib.core import zlist, natlit, zlit, blit
 
 MANIFEST = {
-    'text': 'Coq theorems (all lengths / all l, by induction, no bound): add_bits = addition mod 2^n with bit outputs '
-            '(carry/propagate invariant of the recursive f(i,j,high) over the shared arrays c,d); from_bits = value; '
-            'from_bits(bits) round trip; to_bits (secint/secfxp incl. integral shortcut, GF(2^k), GF(p) branches) = two\'s '
-            'complement expansion of a mod 2^l for EVERY tape under the no-wrap condition of the masked opening; '
-            'trailing_zeros correct up to and including the lowest 1; unit_vector a n = e_a for 0<=a<n and e_0 for a=n; '
-            'find = f(first index) / f(e) / raw (nf, ix) for f, cs_f, default forms; gcp2 = 2^min(v2 a, v2 b). The models are '
-            'tied to /repo/mpyc/runtime.py on every run by exact comparison with the real functions on shared random tapes.',
-    'note': 'Value level (single party, operator overloading makes the routines party independent); arithmetic in Z with field '
-            'reduction modelled only at the masked openings (all other values are bits or sums of three bits). Field-level '
-            'a >> f is modelled by exact integer division (only executed for integral a). to_bits holds under the no-wrap '
-            'condition 0 <= a + 2^L + r_divl*2^l - r_modl < p, violated only with probability <= 2^-k (r_divl = 0, l = L), which '
-            'is the statistical-security error of the protocol, witnessed by to_bits_wrap_witness and replayed in the check. '
-            'mpc.random_bits and mpc._random are tape oracles (patched from outside, /repo untouched). '
-            'Defects (known_findings/C30.json): find(f=..., cs_f=...) raises UnboundLocalError; find([], 1) raises IndexError; '
-            'to_bits(secfxp, l > bit_length) returns bit L set for nonnegative nonintegral a although the assert admits l <= '
-            'bit_length + frac_length.',
+    'text': 'Coq theorems (all lengths / all l, by induction, no bound) over value-level models of runtime.py: add_bits_correct '
+            '(addition mod 2^n, outputs are bits; carry/propagate invariant of the recursive f(i,j,high) over the shared arrays '
+            'c,d); from_bits = value and from_bits(bits_of a l) = a mod 2^l; to_bits_num_correct (secint/secfxp incl. the integral '
+            'shortcut), to_bits_gf2_correct, to_bits_gfp_correct: two\'s complement expansion of a mod 2^l for EVERY tape under '
+            'the no-wrap condition of the masked opening (nowrap_from_ranges derives it from the code\'s ranges unless r_divl = 0 '
+            'and l = L); trailing_zeros_correct (right up to and including the lowest 1); unit_vector_correct (e_a for all n, '
+            '0 <= a < n) and unit_vector_wrap (a = n gives e_0); find_correct (f(first index) / f(e) / raw (nf, f(ix)) for the '
+            'default, f and cs_f forms, public or secret a, bits or not); gcp2_correct / gcp2_zero. The models are tied to '
+            '/repo/mpyc/runtime.py on every run by exact comparison with the real functions on shared random tapes, and the '
+            'real functions are compared with an independent plain-Python oracle on the same inputs.',
+    'note': 'Value level (single party; operator overloading makes the routines party independent); arithmetic in Z with field '
+            'reduction modelled only at the masked openings (all other values are bits or sums of three bits). The field-level '
+            'a >> f is modelled by exact integer division (only executed for integral a, hypothesis 2^f | A). to_bits holds under '
+            '0 <= a + 2^L + r_divl*2^l - r_modl < p, which fails only for r_divl = 0, l = L (probability <= 2^-k, the protocol\'s '
+            'statistical error): C30_to_bits_wrap_witness, replayed on the implementation by forcing r_divl = 0. '
+            'mpc.random_bits / mpc._random are tape oracles patched from outside for the draws made directly by to_bits and '
+            'trailing_zeros (/repo untouched); conversions (GF(p) branch) keep the real generator and are trusted to be value '
+            'preserving (checked by the oracle). In find, f / cs_f values are lists (int and tuple results are wrapped as the code '
+            'does); find_correct assumes cs_f(1,i) = cs_f(0,i+1) for i >= 0 and equal lengths of all f(i). unit_vector is '
+            'modelled on the bits of a (to_bits composed separately); a > n is unspecified and only compared with the model. '
+            'Defects (known_findings/C30.json): F-C30-1 find(f=, cs_f=) raises UnboundLocalError (C30_find_both_refuted); '
+            'F-C30-2 find([], 1) raises IndexError (so gcp2(.., l=0) raises); F-C30-3 to_bits(nonintegral secfxp, l > bit_length) '
+            'is wrong although the assert admits l <= bit_length + frac_length (C30_to_bits_l_gt_bit_length_refuted). '
+            'np_add_bits / np_to_bits / np_find / np_unit_vector are not covered.',
     'technique': 'Coq proof by induction over the recursion structure + vm_compute correspondence on shared tapes + exhaustive small-domain oracle',
 }
 
